@@ -366,7 +366,8 @@ def C16.InterningStatement : Prop :=
 
 /-- proved part of `C16.InterningStatement`: the `Intern` calls themselves (every value token:
 numbers, strings, comments, illegal bytes, non-keyword identifiers), with anything interned in
-between.  Missing for the full statement: the induction over `resolveAll` for streams that mix
+between.  Also proved: `resolve_den` (each single call returns the pointer denoted by the token's
+key in an extension of `Init`'s table).  Missing for the full statement: the induction over `resolveAll` for streams that mix
 `Intern` with the constant pointers (`ConstantTokenChar(2)`, keywords, `EOLT/EOFT`), whose keys
 are disjoint from interned keys by `Tok.WF` and the finite tables. -/
 theorem C16.interning_partial (tb : Table) (k1 k2 : Key) (ext : Table) :
@@ -378,6 +379,70 @@ theorem C16.next_wf (s : State) : (next s).1.WF := by
   cases C16.cases s with
   | inl m => rw [m.1]; unfold Tok.WF eolEof; cases s.lineMode <;> simp
   | inr ok => exact ok.wf
+
+/-! ### towards the full interning statement: what each pointer denotes -/
+
+def key (t : Tok) : Key := (t.type, t.lit)
+
+/-- what pointer a well-formed token denotes in (any extension of) table `T` -/
+def PtrDen (T : Table) (t : Tok) (p : Ptr) : Prop :=
+  match t.src with
+  | .eoleof => p = (if t.type = EOL then Ptr.eolt else Ptr.eoft)
+  | .char1 => ∃ c, t.lit = [c] ∧ p = Ptr.c1 c
+  | .char2 => p = Ptr.slot (idx (key t) T) ∧ key t ∈ T
+  | .intern => p = Ptr.slot (idx (key t) T) ∧ key t ∈ T
+  | .lookup => p = Ptr.slot (idx (key t) T) ∧ key t ∈ T
+  | .nil => False
+  | .panic => False
+
+theorem PtrDen.ext {T : Table} {t : Tok} {p : Ptr} (h : PtrDen T t p) (e : Table) : PtrDen (T ++ e) t p := by
+  unfold PtrDen at *
+  split <;> simp_all [idx_append]
+
+theorem kw_mem_init (w : Bytes) (ty : TType) (h : keywords.lookup w = some ty) : (ty, w) ∈ initTable := by
+  have := lookup_mem _ _ _ h
+  unfold initTable
+  exact List.mem_append_left _ (List.mem_map.mpr ⟨(w, ty), this, rfl⟩)
+
+theorem c2_mem_init (a b : UInt8) (ty : TType) (h : c2Tokens.lookup (a, b) = some ty) : (ty, [a, b]) ∈ initTable := by
+  have := lookup_mem _ _ _ h
+  unfold initTable
+  exact List.mem_append_right _ (List.mem_map.mpr ⟨((a, b), ty), this, rfl⟩)
+
+theorem resolve_den (ext : Table) (t : Tok) (wf : t.WF) :
+    ∃ e, (resolve (initTable ++ ext) t).2 = initTable ++ ext ++ e
+      ∧ PtrDen (initTable ++ ext ++ e) t (resolve (initTable ++ ext) t).1 := by
+  unfold Tok.WF at wf
+  unfold resolve PtrDen
+  split at wf
+  · rename_i hs; simp only [hs]; exact ⟨[], by simp, by first | trivial | rfl⟩
+  · rename_i hs; simp only [hs]
+    obtain ⟨c, hc, _⟩ := wf
+    exact ⟨[], by simp, c, hc, by first | trivial | rfl | (rw [hc])⟩
+  · rename_i hs; simp only [hs]
+    obtain ⟨a, b, hl, hc⟩ := wf
+    have hm : key t ∈ initTable := by unfold key; rw [hl]; exact c2_mem_init a b _ hc
+    refine ⟨[], by simp, ?_, by simp [hm]⟩
+    simp only [List.append_nil]
+    rw [idx_append _ _ _ hm]; rfl
+  · rename_i hs; simp only [hs]
+    obtain ⟨p, m, e, he⟩ := intern_spec (initTable ++ ext) (t.type, t.lit)
+    exact ⟨e, he, by rw [← he]; exact p, by rw [← he]; exact m⟩
+  · rename_i hs; simp only [hs]
+    cases hl : keywords.lookup t.lit with
+    | some ty =>
+      rw [hl] at wf; simp only [Option.getD] at wf
+      have hm : key t ∈ initTable := by unfold key; rw [wf]; exact kw_mem_init _ _ hl
+      refine ⟨[], by simp, ?_, by simp [hm]⟩
+      simp only [List.append_nil]
+      rw [idx_append _ _ _ hm]; unfold key; rw [wf]
+    | none =>
+      rw [hl] at wf; simp only [Option.getD] at wf
+      obtain ⟨p, m, e, he⟩ := intern_spec (initTable ++ ext) (IDENT, t.lit)
+      have hk : key t = (IDENT, t.lit) := by unfold key; rw [wf]
+      exact ⟨e, he, by rw [← he, hk]; exact p, by rw [← he, hk]; exact m⟩
+  · exact wf.elim
+  · exact wf.elim
 
 /-! ### non-vacuity: the three repaired inputs, evaluated by the kernel -/
 
